@@ -12,7 +12,7 @@ import (
 // FaultAt addresses one injected fault: the Rel-th call (counted from the start of
 // the operation under test) of one target sequence.
 type FaultAt struct {
-	Target string // "ext" (metastore+KMS call log), "aead", "alloc", "sec-open", "sec-release" (reads of key secrets)
+	Target string // "ext" (metastore+KMS call log), "aead", "alloc", "alloc-consumed" (the factory fails after it copied and wiped its input), "sec-open", "sec-release" (reads of key secrets)
 	Rel    int
 	Kind   kit.FaultKind // for "ext"; ignored otherwise
 }
@@ -95,6 +95,8 @@ func (sc *FaultScenario) Exec(t *rapid.T, op func(sc *FaultScenario) *Event) *Ev
 			aead[f.Rel] = i
 		case "alloc":
 			w.Secrets.FailRel(f.Rel, func() { sc.Fired[i] = true })
+		case "alloc-consumed":
+			w.Secrets.FailRelWiped(f.Rel, func() { sc.Fired[i] = true })
 		case "sec-open":
 			w.Secrets.FailOpenRel(f.Rel, func() { sc.Fired[i] = true })
 		case "sec-release":
